@@ -13,4 +13,4 @@ if n!=1: print("MUT: pattern matched",n,"times"); sys.exit(3)
 open(p,'w').write(re.sub(pat,rep,s,count=1,flags=re.S))
 PY
 [ $? -eq 0 ] || exit 3
-cd /verif && VERIF_REPO=$S ./check $P 2>&1 | grep -E "VIOLATION|UNDECIDED|^check" | cut -c1-260
+cd /verif && VERIF_EVIDENCE_DIR=/tmp/s/evidence VERIF_REPO=$S ./check $P 2>&1 | grep -E "VIOLATION|UNDECIDED|^check" | cut -c1-260
